@@ -13,13 +13,13 @@ SPEC = dict(
           "protein and ion groups, desolvation terms and buried fractions identical to 1e-9; with the program's own hydrogens supplied "
           "(-k) every pKa and determinant identical to 1e-9; with constructed hydrogens within the effect of coordinate rounding. "
           "The whole scoring phase is modelled as well (Model/Scoring.lean: calculate_pka of one conformation with everything it calls - desolvation, backbone and ion determinants, backbone reorganisation, the pair loop with angle factors, exception rules and both families of pair rules, the iterative scheme, totals, coupling penalties and the removal of determinants towards penalised groups; parameters regenerated from /repo and read back from the compiled driver); its Float instance is compared with the real calculate_pka on every distinct conformation this check runs - counts, partners and order exactly, numbers to 1e-9 (they are bit-identical on the unchanged tree). score reads coordinates only through the environment envOf (squared distances atom-atom / centre-atom / centre-centre and the angle factors): envOf_motion_invariant / score_motion_invariant show that a map of space preserving inner products of difference vectors leaves that environment, hence every number scoring produces, unchanged (hydrogens where they are: supplied hydrogens, or constructed ones before rounding); rigid_isometric shows that every orthogonal matrix followed by a translation - not only the 24 grid rotations - is such a map. A directed family lays the pairs of groups with the most distant centres among all determinant partners along the x axis and moves the structure in 0.15 A steps over 6.3 A, so that a cell boundary of any absolute grid passes between them. "
-          "centreOf_affine: the centre of a group (set_center: mean of a non-empty atom list, Model/Setup.lean) commutes with every affine map, so the centres envOf reads are the moved centres.",
+          "centreOf_affine: the centre of a group (set_center: mean of a non-empty atom list, Model/Setup.lean) commutes with every affine map, so the centres envOf reads are the moved centres. pipeline_bonds_motion_invariant (Props/C04Pipeline.lean): on the bonding phase the program model executes (Pipe.bondAll, tied to the real bond lists on every recorded conformation) two atom tables that correspond under a grid rotation and a translation get the same bonds - through the refinement bondAll_refines and C11's pairwise theorem, exact arithmetic, regenerated constants.",
     note="Partial: 'no more than the effect of rounding constructed hydrogens' is a quantitative Lipschitz statement that is not proved; it "
          "is measured (0.02 pKa units allowed). Selections from a neighbour list that is not a singleton (element [0] of the bonded "
          "carbons of a terminal oxygen) depend on bond-list order, i.e. on the frame: known finding D10, not repaired because the fix "
          "changes a frozen reference.",
     technique="Lean 4 proof (integer matrix algebra, decide over the 24 matrices, corollary of the cell-list theorem) + metamorphic runs",
-    lean=["Propka.Props.C04"],
+    lean=["Propka.Props.C04", "Propka.Props.C04Pipeline"],
     rule="test files and library structures (amino-acid chains, with ions/ligands for the heavy-atom clauses) x random grid translations "
          "within the coordinate field x rotations from the 24; non-trivial = a non-identity motion of a structure with ionizable groups",
     assumptions=["coordinates stay inside the PDB field after the motion"],
